@@ -25,6 +25,8 @@ def setup():
     from contracts import register_all
     register_all()
     common.setup()
+    from contracts import nested
+    nested.ABSTRACT_DISABLED = False
     F.BOUNDS[('ParserBinary._parse_parsable_derived_array', 0)] = ITEM_BOUND
     F.DEFAULT_BOUND = LOOP_BOUND
 
